@@ -124,6 +124,15 @@ def RW.opPinned (w : RW) : HOp → RW
 def serveOne (minor : Nat) (reqClose : Bool) (prog : List HOp) : RW :=
   (prog.foldl RW.op { minor := minor, reqClose := reqClose }).finish
 
+/-- pinned (before 13c8e6d): the connection decision reads the *live* header map, which the handler may have
+    changed after the header block went out -/
+def RW.finishLive (w : RW) : RW :=
+  let f := w.finish
+  if w.finished then f else { f with markedClose := w.reqClose || (lookup f.header sCL = [] && lookup f.header sTE = []) }
+
+def serveOneLive (minor : Nat) (reqClose : Bool) (prog : List HOp) : RW :=
+  (prog.foldl RW.op { minor := minor, reqClose := reqClose }).finishLive
+
 def serveOnePinned (minor : Nat) (reqClose : Bool) (prog : List HOp) : RW :=
   let w := prog.foldl RW.opPinned { minor := minor, reqClose := reqClose, legacy10 := true }
   if w.finished then { w with crashed := true } else w.finish      -- the deferred Flush dereferences the released buffer
